@@ -14,16 +14,23 @@ pub struct C12;
 
 const FLAGS: [&str; 4] = ["", "m", "s", "ms"];
 
+/// Token strings: optional and repeated anchors (which match the empty string everywhere
+/// and so must change nothing), an anchor inside a capturing group that is not the first
+/// term, newline-consuming terms, beside a repeat that must give characters back.
+const T_ANCH: [&str; 10] = ["^?", "$*", "^", "$", "a*", "a", "\\n", "(^a)", "|", "."];
+
 fn space_for(tier: Tier) -> (Space, usize) {
     let mut s = Space::new();
     match tier {
         Tier::Quick => {
             s.ast("AN", 5, 64).ast("ANU", 3, 64).ast("ANQ", 4, 64).ast("ANI", 3, 64).ast("ALTM", 4, 64);
+            s.tok("TA", &T_ANCH, 4, 64);
             s.list("flag strings", 1, 1);
             (s, 4)
         }
         Tier::Thorough => {
             s.ast("AN", 5, 64).ast("ANU", 4, 64).ast("ANQ", 4, 64).ast("ANI", 4, 64).ast("ALTM", 4, 64);
+            s.tok("TA", &T_ANCH, 5, 64);
             s.list("flag strings", 1, 1);
             (s, 5)
         }
@@ -90,7 +97,7 @@ impl Check for C12 {
         }
         let sigma = match &seg.kind {
             space::SegKind::Ast { scope, .. } => crate::gen::scope(scope).sigma,
-            _ => unreachable!(),
+            _ => vec!['a', '\n'],
         };
         let inputs = all_strings(&sigma, maxlen);
         let inputs_c: Vec<Vec<char>> = inputs.iter().map(|s| s.chars().collect()).collect();
@@ -159,6 +166,7 @@ impl Check for C12 {
                     if let Out::Ok(an) = imp::analyze(&re, inp) {
                         let got = imp::spans_from_analyze(&an);
                         let mut pos = 0usize;
+                        let mut all_ok = true;
                         let case = Case::new(&scope_name, text, flags).xsd(xsd).input(inp).api("analyze");
                         for (st, en) in &got {
                             let ok = *st >= pos
@@ -166,9 +174,17 @@ impl Check for C12 {
                                 && sem.ends(&parsed.ast, *st) & (1 << *en) != 0;
                             if !ok {
                                 out.fail("C12", &case, "WrongSpan", "leftmost start, span in the match relation", &format!("{:?}", got), "");
+                                all_ok = false;
                                 break;
                             }
                             pos = if en > st { *en } else { *en + 1 };
+                        }
+                        // ... and the scan is complete: nothing in the language starts at or
+                        // after the end of the last reported match
+                        if all_ok && pos <= chars.len() && got.iter().all(|(st, en)| en > st) {
+                            if let Some((l, _)) = sem.lang_leftmost(&parsed.ast, pos) {
+                                out.fail("C12", &case, "MissedMatch", &format!("a further match starting at {}", l), &format!("{:?}", got), "");
+                            }
                         }
                     }
                 }
